@@ -73,6 +73,9 @@ def cases(tier):
                 continue
             out.append({"cls": "Polygon", "poly": [list(p) for p in c], "pl": PL3[1 + k % 7]})
             out.append({"cls": "Polygon", "poly": [list(p) for p in c], "pl2": PL2[1 + k % 5]})
+            # explicit normals, including the one opposite to the normal the first three vertices would give
+            out.append({"cls": "Polygon", "poly": [list(p) for p in c], "pl": PL3[1 + (k + 3) % 7], "normal": "+"})
+            out.append({"cls": "Polygon", "poly": [list(p) for p in c], "pl2": PL2[1 + (k + 2) % 5], "normal": "-"})
             k += 1
     for i, c in enumerate(A.cp2(5, 4)):
         if i % (20 if q else 4):
@@ -121,6 +124,9 @@ def _build(case):
         if case.get("pl", {}).get("tiny") if "pl" in case else False:
             s = s * case["pl"]["tiny"]
         if cls == "Polygon":
+            if case.get("normal"):
+                nz = 1.0 if case["normal"] == "+" else -1.0
+                return S.Polygon(F, normal=R @ np.array([0.0, 0.0, nz]))
             return S.Polygon(F)
         if cls == "ConvexPolygon":
             return S.ConvexPolygon(F)
